@@ -153,3 +153,32 @@ Section Cleave.
   Definition pool_raises (r : rule) (exc : option rule) (prots : list (seq * bool)) : bool :=
     existsb (fun pr => cleave_raises r exc (snd pr) (prep (fst pr))) prots.
 End Cleave.
+
+(* ---- iter_enzymatic_cleave_sites_with_range ---- *)
+(* regex.finditer(EXPASY_RULES2[rule], seq, overlapped=True): at every start position the first
+   alternative (in order) that matches gives one match; the search resumes at start+1 *)
+Fixpoint first_match2 (r2 : rule2) (s : seq) : option nat :=
+  match r2 with
+  | [] => None
+  | a :: r' => if match_prefix a s then Some (length a) else first_match2 r' s
+  end.
+
+Fixpoint raw_ranges (r2 : rule2) (s : seq) (p : nat) : list (nat * nat) :=
+  match s with
+  | [] => []
+  | _ :: s' =>
+      match first_match2 r2 s with
+      | Some n => (p, (p + n)%nat) :: raw_ranges r2 s' (S p)
+      | None => raw_ranges r2 s' (S p)
+      end
+  end.
+
+(* None = ValueError("Inconsistent cleavage sites found") *)
+Definition sites_with_range (r : rule) (r2 : rule2) (exc : option rule) (s : seq)
+  : option (list (nat * (nat * nat))) :=
+  let ss := raw_sites r s in
+  let rs := raw_ranges r2 s 0 in
+  if Nat.eqb (length ss) (length rs) then
+    let ex := match exc with Some e => raw_sites e s | None => [] end in
+    Some (filter (fun sr => negb (mem_nat (fst sr) ex)) (combine ss rs))
+  else None.
